@@ -21,7 +21,7 @@ def main():
     src = os.path.join(wt, "BENIGN", x)
     meta = json.load(open(os.path.join(src, "meta.json")))
     patch = os.path.join(src, "patch.diff")
-    sid = "%s-b%s" % (pid, x)
+    sid = "%s-b%s%s" % (pid, os.environ.get("BEN_PREFIX", ""), x)
     scratch = "/tmp/benign-%s" % sid
     sh("git -C /repo worktree remove --force %s" % scratch)
     sh("git -C /repo worktree add -q --detach %s HEAD" % scratch)
